@@ -1402,6 +1402,84 @@ def search(res):
         oracle_sum_of_baths(res, rng)
 
 
+KEY_SCRATCH = "buffer:%sProcessTensor built from one refilled scratch array"
+
+
+def oracle_scratch(res, gen_seed, cls, key=None):
+    """the tensors HANDED OVER define the process tensor: a caller that refills one complex128
+    scratch array per step (a different map at every step) must get the same dynamics as with a
+    fresh array per step (which the correspondence ties to the model)"""
+    import oqupy
+    from oqupy.process_tensor import FileProcessTensor
+    from . import cases
+    rng = random.Random(gen_seed)
+    d, n = 2, 4
+    L = d * d
+    dims = [1, 2, 2, 2, 1]
+    found = False
+    for rank in (4, 3):
+        shp = lambda k: (dims[k], dims[k + 1], L) + ((L,) if rank == 4 else ())
+        mpos = [dyadic(rng, shp(k), den=2, span=2) for k in range(n)]
+        caps = [dyadic(rng, (dims[k],), den=2, span=2) for k in range(n + 1)]
+        spec = {"kind": "rank%d" % rank, "mpos": mpos, "tin": None, "tout": None}
+        fresh = build_pt(spec, d, n, cls)
+
+        def mk():
+            if cls == "simple":
+                return oqupy.SimpleProcessTensor(hilbert_space_dimension=d, dt=DT)
+            pt_ = FileProcessTensor(mode="write", hilbert_space_dimension=d, dt=DT)
+            pt_.set_initial_tensor(None)
+            return pt_
+        reused = mk()
+        bufs = {}
+        for k, m in enumerate(mpos):
+            buf = bufs.setdefault(m.shape, np.empty(m.shape, dtype=complex))
+            buf[...] = m
+            reused.set_mpo_tensor(k, buf)
+        for b in bufs.values():
+            b[...] = 0.0                              # the caller goes on to use its array
+        reused.compute_caps()
+        # the same with explicit caps from one scratch vector
+        capped, capref = mk(), mk()
+        cbufs = {}
+        for k, m in enumerate(mpos):
+            capped.set_mpo_tensor(k, np.array(m, dtype=complex))
+            capref.set_mpo_tensor(k, np.array(m, dtype=complex))
+        for k, c in enumerate(caps):
+            cb = cbufs.setdefault(c.shape, np.empty(c.shape, dtype=complex))
+            cb[...] = c
+            capped.set_cap_tensor(k, cb)
+            capref.set_cap_tensor(k, np.array(c, dtype=complex))
+        for b in cbufs.values():
+            b[...] = 0.0
+        system = oqupy.System(np.array([[0.3, 0.2 - 0.1j], [0.2 + 0.1j, -0.3]]))
+        rho0 = cases.rand_dm(rng, d)
+        try:
+            for what, a, b in (("mpo", reused, fresh), ("cap", capped, capref)):
+                k_ = KEY_SCRATCH % cls.capitalize() + ":" + what
+                if key and key != k_:
+                    continue
+                for rec in (True, False):
+                    x = run_real(system, rho0, [a], n, None, 0.0, rec)
+                    y = run_real(system, rho0, [b], n, None, 0.0, rec)
+                    err = max(np.abs(u - v).max() for u, v in zip(x, y))
+                    if not err <= 1e-12 * max(1.0, max(np.abs(v).max() for v in y)):
+                        found = True
+                        res.fail(key or k_,
+                                 {"oracle": "scratch", "gen_seed": gen_seed, "class": cls, "rank": rank,
+                                  "record_all": rec, "max_state_difference": float(err),
+                                  "how": "%sProcessTensor: set_%s_tensor(k, buf) for k = 0..%d with ONE "
+                                         "complex128 array `buf` refilled before every call (and zeroed "
+                                         "afterwards) vs the same tensors handed over as fresh arrays: "
+                                         "compute_dynamics states differ"
+                                         % (cls.capitalize(), what, n - 1)})
+                        break
+        finally:
+            for pt_ in (fresh, reused, capped, capref):
+                drop_pt(pt_)
+    return found
+
+
 def replay_case(res, payload):
     fi = payload.get("failing_input", payload)
     key = payload.get("key")
@@ -1413,6 +1491,8 @@ def replay_case(res, payload):
         return oracle_history(res, fi["gen_seed"], fi["variant"], fi["class"], key)
     if fi.get("oracle") == "trivial":
         return oracle_trivial(res, fi["gen_seed"], key)
+    if fi.get("oracle") == "scratch":
+        return oracle_scratch(res, fi["gen_seed"], fi["class"], key)
     if fi.get("oracle") == "tdep-final":
         return oracle_tdep_final(res, fi["gen_seed"], fi["variant"], fi["class"], key)
     if fi.get("oracle") == "caps-gauge":
@@ -1500,6 +1580,11 @@ def run(tier, seed, replay):
             res.notes.append("correspondence skipped: generated wiring unavailable")
     except fw.Infra as e:
         res.oblige("correspondence run", False, str(e))
+    # always run (the stored-tensor correspondence hands over fresh arrays only): tensors handed
+    # over in one refilled scratch array, both classes
+    for cls in ("simple", "file"):
+        oracle_scratch(res, rng.randrange(10 ** 9), cls)
+        res.count("scratch-buffer build:%s" % cls)
 
     def search_all(r):
         # the ControlCompose tie belongs to C03's obligations: when it breaks, C18's oracles on the
